@@ -132,8 +132,10 @@ def eval_expr(e: ast.expr, env: dict[str, Any], oracle: Oracle | None = None) ->
         for v in e.values:
             if isinstance(v, ast.Constant):
                 out += str(v.value)
-            elif isinstance(v, ast.FormattedValue) and v.format_spec is None and v.conversion == -1:
+            elif isinstance(v, ast.FormattedValue) and v.format_spec is None and v.conversion in (-1, 115):
                 out += str(eval_expr(v.value, env, oracle))
+            elif isinstance(v, ast.FormattedValue) and v.format_spec is None and v.conversion == 114:
+                out += repr(eval_expr(v.value, env, oracle))
             else:
                 raise AnalysisError(f"f-string outside the language: {ast.unparse(e)}")
         return out
@@ -189,6 +191,10 @@ def eval_expr(e: ast.expr, env: dict[str, Any], oracle: Oracle | None = None) ->
         if recv is None or isinstance(recv, (int, float, bool, list, tuple, dict, set)):
             # a value of a builtin type that has no such method: AttributeError at run time
             raise Raised(ast.Raise(exc=ast.Name(id="AttributeError", ctx=ast.Load()), cause=None))
+    if isinstance(e, ast.Call) and isinstance(e.func, ast.Name) and e.func.id == "map" and len(e.args) == 2 and not e.keywords and isinstance(e.args[0], ast.Name) \
+            and e.args[0].id in ("str", "int", "float", "bool", "repr", "len"):
+        fn_ = {"str": str, "int": int, "float": float, "bool": bool, "repr": repr, "len": len}[e.args[0].id]
+        return [fn_(x) for x in eval_expr(e.args[1], env, oracle)]
     if isinstance(e, ast.Call) and isinstance(e.func, ast.Name) and e.func.id in ("all", "any") and len(e.args) == 1 and not e.keywords:
         return {"all": all, "any": any}[e.func.id](eval_expr(e.args[0], env, oracle))
     if isinstance(e, ast.Call) and isinstance(e.func, ast.Attribute) and e.func.attr in ("items", "keys", "values") and not e.args and not e.keywords:
